@@ -495,8 +495,6 @@ impl Parser {
 
         match self.current_kind()? {
             TokenKind::Literal(LitKind::Ident) => {
-                let start2 = self.preback();
-
                 let mut x = ast::Expression::Ident(self.identifier()?);
                 if !self.current_is(Operator::BarackRight) {
                     self.inc_expr_level()?;
@@ -505,6 +503,9 @@ impl Parser {
                     self.dec_expr_level();
                 }
 
+                // the expression read so far is the array length if this is no parameter list
+                // (reading it a second time made nested declarations take exponential time)
+                let len = Box::new(x.clone());
                 let (pname, ptype) = extract(x, self.current_is(Operator::Comma));
                 if pname.is_some() && (ptype.is_some() || !self.current_is(Operator::BarackRight)) {
                     self.goback(start);
@@ -514,8 +515,6 @@ impl Parser {
                     return Ok(ast::TypeSpec { docs, alias, name, typ, params });
                 }
 
-                self.goback(start2); // TODO: how to avoid this
-                let len = Box::new(self.parse_next_level_expr()?);
                 let pos1 = self.expect(Operator::BarackRight)?;
                 let typ = Box::new(self.type_()?);
                 let arr = ast::ArrayType { pos: (pos0, pos1), len, typ };
